@@ -58,6 +58,11 @@ def is_scalar(t):
     return isinstance(t, numbers.Number) or type(t) == torch.Tensor and len(t.shape) == 0
 
 
+def is_positive_scalar(t):
+    # The scale of a quantized tensor must remain strictly positive: operations like relu or lt assume it
+    return is_scalar(t) and bool(t > 0)
+
+
 @register_qbytestensor_op([torch.ops.aten._to_copy, torch.ops.aten.to])
 def _to_copy(op, t, dtype=None, **kwargs):
     # For data, ignore dtype and use the inner type instead
@@ -135,7 +140,7 @@ def copy_(op, dest, src):
 
 @register_qbytestensor_op([torch.ops.aten.div])
 def div(op, input, other):
-    if not isinstance(input, QBytesTensor) or not is_scalar(other):
+    if not isinstance(input, QBytesTensor) or not is_positive_scalar(other):
         # Only the division of a quantized tensor by a scalar can be applied to the scale
         return qfallback(op, input, other)
     # We just divide the scale (that keeps its dtype, as a Tensor divided by a scalar does)
@@ -231,10 +236,10 @@ def mm(op, input, other):
 def mul(op, input, other):
     # If one of the multiplicands is a scalar, just multiply the scale
     # (the scale keeps its dtype, as a Tensor multiplied by a scalar does)
-    if is_scalar(input) and isinstance(other, QBytesTensor):
+    if is_positive_scalar(input) and isinstance(other, QBytesTensor):
         out_scale = (input * other._scale).to(other._scale.dtype)
         return QBytesTensor(other.qtype, other.axis, other.size(), other.stride(), other._data, out_scale)
-    if is_scalar(other) and isinstance(input, QBytesTensor):
+    if is_positive_scalar(other) and isinstance(input, QBytesTensor):
         out_scale = (other * input._scale).to(input._scale.dtype)
         return QBytesTensor(input.qtype, input.axis, input.size(), input.stride(), input._data, out_scale)
     return qfallback(op, input, other)
